@@ -327,14 +327,14 @@ pub fn dump_cfg(cfg: &Cfg, universe: &[u16]) -> Value {
     // ordered by its (sorted, unique per chord) key list
     let mut chv2: Vec<(Vec<u16>, Value)> = vec![];
     if let Some(cv2) = l.chords_v2.as_ref() {
-        let mut seen: Vec<usize> = vec![];
+        // the parser stores one copy of a chord per participating key; key sets are unique per chord
+        let mut seen: Vec<Vec<u16>> = vec![];
         for cfk in cv2.chords().mapping.values() {
             for ch in cfk.chords.iter() {
-                let addr = *ch as *const _ as usize;
-                if seen.contains(&addr) {
+                if seen.contains(&ch.participating_keys.to_vec()) {
                     continue;
                 }
-                seen.push(addr);
+                seen.push(ch.participating_keys.to_vec());
                 let a: &'static KanataAction = unsafe { std::mem::transmute(ch.action) };
                 chv2.push((
                     ch.participating_keys.to_vec(),
@@ -360,6 +360,8 @@ pub fn dump_cfg(cfg: &Cfg, universe: &[u16]) -> Value {
         "has_chords_v2": l.chords_v2.is_some(),
         "chv2": chv2,
         "has_zippy": cfg.zippy.is_some(),
+        // defseq trie: [{"k":[u16..],"x":row,"y":col}..] (SeqMode.tla Opts.seqtrie)
+        "sequences": crate::seqtab::sequences_for_dump(cfg),
         "opts": {
             "trans_v2": o.trans_resolution_behavior_v2,
             "delegate": o.delegate_to_first_layer,
